@@ -7,7 +7,6 @@ import (
 	"crypto/ecdsa"
 	"crypto/elliptic"
 	"crypto/hmac"
-	"crypto/rand"
 	"crypto/rsa"
 	"crypto/sha256"
 	"crypto/x509"
@@ -16,6 +15,7 @@ import (
 	"encoding/pem"
 	"fmt"
 	"io"
+	"math/big"
 	"net/http"
 	"net/url"
 	"strings"
@@ -205,14 +205,30 @@ func (w *vfWorld) StartIdP() *vfIdP {
 
 func (p *vfIdP) AddUser(u *vfUser) { p.users[u.Name] = u }
 
+// SetPadding sets the access-token padding of grants created from now on (safe in parallel passes).
+func (p *vfIdP) SetPadding(n int) {
+	p.mu.Lock()
+	p.Padding = n
+	p.mu.Unlock()
+}
+
 // RotateKey generates a fresh P-256 signing key (from the seeded crypto/rand), publishes it and
 // signs with it from now on: the proxy's cached key set does not know its kid, so the next
 // verification triggers a JWKS refetch.
 func (p *vfIdP) RotateKey() int {
-	k, err := ecdsa.GenerateKey(elliptic.P256(), rand.Reader)
-	if err != nil {
-		p.w.fatalf("keygen: %v", err)
-	}
+	// derived, not generated: ecdsa.GenerateKey deliberately consumes a nondeterministic amount of
+	// randomness (randutil.MaybeReadByte), which would desynchronise the seeded crypto/rand stream
+	p.mu.Lock()
+	n := len(p.keys)
+	p.mu.Unlock()
+	sum := sha256.Sum256([]byte(fmt.Sprintf("vf-rotated-key-%d", n)))
+	curve := elliptic.P256()
+	d := new(big.Int).SetBytes(sum[:])
+	d.Mod(d, new(big.Int).Sub(curve.Params().N, big.NewInt(1)))
+	d.Add(d, big.NewInt(1))
+	k := &ecdsa.PrivateKey{D: d}
+	k.Curve = curve
+	k.X, k.Y = curve.ScalarBaseMult(d.Bytes()) //nolint:staticcheck
 	der, _ := x509.MarshalPKIXPublicKey(k.Public())
 	p.mu.Lock()
 	defer p.mu.Unlock()
@@ -446,13 +462,14 @@ func (p *vfIdP) ServeHTTP(rw http.ResponseWriter, r *http.Request) {
 		call.Endpoint = "unknown:" + r.URL.Path
 	}
 	if err := w.sched.yieldDone(r.Context(), "idp", call.Endpoint, r.Context().Done()); err != nil {
-		return
+		panic(http.ErrAbortHandler) // abandoned: drop the connection without an answer
 	}
 	p.mu.Lock()
 	call.Idx = len(p.calls)
 	p.calls = append(p.calls, call)
 	plan, lat := p.Plan, p.Latency
 	p.mu.Unlock()
+	logged := false
 	var f vfIdpFault
 	if plan != nil {
 		f = plan(call)
@@ -464,14 +481,18 @@ func (p *vfIdP) ServeHTTP(rw http.ResponseWriter, r *http.Request) {
 			case <-time.After(d):
 			case <-r.Context().Done():
 				call.Outcome = "client-gone"
+				logged = true // (the client has left: logging now would race with the driver)
 				return
 			}
 			if err := w.sched.yieldDone(r.Context(), "idp-reply", call.Endpoint, r.Context().Done()); err != nil {
-				return
+				panic(http.ErrAbortHandler)
 			}
 		}
 	}
 	defer func() {
+		if logged {
+			return
+		}
 		call.Done = w.simNow()
 		call.Seq = w.logf("idp", "[%s] %s -> %s%s", call.Task, call.Endpoint, call.Outcome, map[bool]string{true: " FAULT " + call.Fault, false: ""}[call.Fault != ""])
 	}()
@@ -503,14 +524,21 @@ func (p *vfIdP) ServeHTTP(rw http.ResponseWriter, r *http.Request) {
 		return
 	case "reset-before":
 		call.Outcome = "reset"
+		call.Seq = w.logf("idp", "[%s] %s -> reset FAULT reset-before", call.Task, call.Endpoint) // before the client can observe it
+		logged = true
 		hijackWrite("")
 		return
 	case "reset-after-headers":
 		call.Outcome = "reset-after-headers"
+		call.Seq = w.logf("idp", "[%s] %s -> reset-after-headers FAULT reset-after-headers", call.Task, call.Endpoint)
+		logged = true
 		hijackWrite("HTTP/1.1 200 OK\r\nContent-Type: application/json\r\nContent-Length: 400\r\n\r\n")
 		return
 	case "hang":
 		call.Outcome = "hang"
+		// logged NOW: the handler returns only after the client has given up, asynchronously to the driver
+		call.Seq = w.logf("idp", "[%s] %s -> hang FAULT hang", call.Task, call.Endpoint)
+		logged = true
 		select {
 		case <-r.Context().Done():
 		case <-time.After(10 * time.Minute):
@@ -529,8 +557,16 @@ func (p *vfIdP) ServeHTTP(rw http.ResponseWriter, r *http.Request) {
 		return
 	case "truncated-json", "oversized":
 		// produced below by wrapping the honest response
-		rw = &vfMangleWriter{ResponseWriter: rw, kind: f.Kind, arg: f.Arg}
-		defer rw.(*vfMangleWriter).finish()
+		mw := &vfMangleWriter{ResponseWriter: rw, kind: f.Kind, arg: f.Arg}
+		mw.before = func() {
+			// logged before the first byte is written: a client that stops reading early (x/oauth2 limits bodies to
+			// 1 MiB) may continue before this handler returns
+			call.Done = w.simNow()
+			call.Seq = w.logf("idp", "[%s] %s -> %s FAULT %s", call.Task, call.Endpoint, call.Outcome, call.Fault)
+			logged = true
+		}
+		rw = mw
+		defer mw.finish()
 	}
 
 	switch call.Endpoint {
@@ -581,6 +617,7 @@ func (p *vfIdP) ServeHTTP(rw http.ResponseWriter, r *http.Request) {
 // vfMangleWriter buffers the honest body and emits a truncated / oversized version of it.
 type vfMangleWriter struct {
 	http.ResponseWriter
+	before func()
 	kind   string
 	arg    int
 	buf    []byte
@@ -593,6 +630,9 @@ func (m *vfMangleWriter) Write(b []byte) (int, error) {
 	return len(b), nil
 }
 func (m *vfMangleWriter) finish() {
+	if m.before != nil {
+		m.before()
+	}
 	if m.status == 0 {
 		m.status = 200
 	}
